@@ -85,7 +85,7 @@ func ulpClose(a, b float64) bool {
 
 // genLatencies produces the latency multiset of a workload (C11's distribution shapes).
 func genLatencies(t *simrt.Tape, n int) (lat []int64, shape string) {
-	shapes := []string{"uniform", "lognormal", "constant", "few-valued", "bimodal-gap", "sorted", "reverse-sorted", "with-zero"}
+	shapes := []string{"uniform", "lognormal", "constant", "few-valued", "bimodal-gap", "sorted", "reverse-sorted", "with-zero", "late-zeros"}
 	k := t.Choose(len(shapes))
 	shape = shapes[k]
 	lat = make([]int64, n)
@@ -108,6 +108,11 @@ func genLatencies(t *simrt.Tape, n int) (lat []int64, shape string) {
 			}
 		case "with-zero":
 			lat[i] = int64(t.Choose(5)) * base
+		case "late-zeros":
+			// some ordinary latencies first, then a long run of zero latencies (added, in the first history, after a Close)
+			if i < n/8+1 {
+				lat[i] = int64(1+t.Choose(100)) * 1000000
+			}
 		}
 	}
 	switch shape {
@@ -218,6 +223,13 @@ func runReport(prop string, t *simrt.Tape, keep bool) simrt.Outcome {
 			for i := 0; i <= n; i += every {
 				closes[i] = true
 			}
+		}
+		if shape == "late-zeros" && h == 0 {
+			// in arrival order, with a report tick exactly where the zero latencies begin
+			for i := range order {
+				order[i] = i
+			}
+			closes = map[int]bool{n/8 + 1: true}
 		}
 		var m vegeta.Metrics
 		m.Histogram = &vegeta.Histogram{Buckets: append(vegeta.Buckets(nil), bounds...)}
